@@ -93,6 +93,29 @@ def judge_window(C: Any, specs: Sequence[Dict[str, Any]], U: Dict[str, Any], T: 
         for k in CNT:
             if g[k] != t[k]:
                 return f"fraction (event row {g['event']}, lot row {g['lot']}): {k} {g[k]} != {t[k]} of the run limited by the to-date only"
+    # ... and the same counts recomputed from the unfiltered run's own fraction list cut at the to-date: k counts the fractions of the
+    # same event / the same lot so far, n is their number up to the to-date
+    upto = [r for r in U["detail"] if td is None or r["event_ts"].date() <= td]
+    ev_n: Dict[Any, int] = {}
+    lot_n: Dict[Any, int] = {}
+    for r in upto:
+        ev_n[r["event"]] = ev_n.get(r["event"], 0) + 1
+        if r["lot"] is not None:
+            lot_n[r["lot"]] = lot_n.get(r["lot"], 0) + 1
+    ev_k: Dict[Any, int] = {}
+    lot_k: Dict[Any, int] = {}
+    labels = []
+    for r in upto:
+        ev_k[r["event"]] = ev_k.get(r["event"], 0) + 1
+        if r["lot"] is not None:
+            lot_k[r["lot"]] = lot_k.get(r["lot"], 0) + 1
+        if in_window(r["event_ts"].date(), fd, td):
+            labels.append({"event_k": ev_k[r["event"]], "event_n": ev_n[r["event"]], "lot_k": lot_k.get(r["lot"]), "lot_n": lot_n.get(r["lot"])})
+    if len(labels) == len(gotf):
+        for g, lab in zip(gotf, labels):
+            for k in CNT:
+                if g[k] != lab[k]:
+                    return f"fraction (event row {g['event']}, lot row {g['lot']}): {k} {g[k]} shown, {lab[k]} counted over the fractions dated up to the to-date"
     if W["balances"] != T["balances"]:
         return f"balances {W['balances']} != balances of the run limited by the to-date only {T['balances']}"
     if W["price_per_unit"] != T["price_per_unit"]:
